@@ -9,7 +9,8 @@
      (RFC 9110 5.3), so a header map is compared as name -> ordered value list;
    * the target is compared by its scheme / authority / path-and-query components (RFC 9114 4.3.1): an absent scheme
      means "https" (h3's documented default), an absent authority is taken from the Host field, an empty path of an
-     http(s) target is "/";  a CONNECT request carries the authority only (RFC 9114 4.4). *)
+     http(s) target is "/";  a plain CONNECT request carries the authority only (RFC 9114 4.4);
+     an extended CONNECT (RFC 8441/9220) also carries :protocol, :scheme and :path. *)
 From H3V Require Import Base.Bytes Model.EndToEnd.
 
 Fixpoint bytes_eqb (a b : bytes) : bool :=
@@ -45,10 +46,11 @@ Definition s_CONNECT : bytes := [67; 79; 78; 78; 69; 67; 84].
 
 (* a request as submitted: method, the three components of the target (as the `http` crate parsed them), fields *)
 Record req_head := { q_method : bytes; q_scheme : option bytes; q_authority : option bytes;
-                     q_path : option bytes; q_fields : fieldl }.
+                     q_path : option bytes; q_protocol : option bytes (* RFC 8441 / 9220 extended CONNECT *);
+                     q_fields : fieldl }.
 (* a request as delivered *)
 Record req_seen := { v_method : bytes; v_scheme : option bytes; v_authority : option bytes;
-                     v_path : option bytes; v_fields : hgroups }.
+                     v_path : option bytes; v_protocol : option bytes; v_fields : hgroups }.
 
 Definition first_host (fs : fieldl) : option bytes :=
   match group_get s_host (group_fields fs) with
@@ -57,7 +59,9 @@ Definition first_host (fs : fieldl) : option bytes :=
   end.
 
 Definition norm_request (q : req_head) : req_seen :=
-  let connect := bytes_eqb (q_method q) s_CONNECT in
+  (* a plain CONNECT names only the authority; an extended CONNECT (with :protocol) is an ordinary target *)
+  let is_connect := bytes_eqb (q_method q) s_CONNECT in
+  let connect := is_connect && match q_protocol q with None => true | Some _ => false end in
   {| v_method := q_method q;
      v_scheme := if connect then None
                  else match q_scheme q with Some s => Some s | None => Some s_https end;
@@ -70,6 +74,7 @@ Definition norm_request (q : req_head) : req_seen :=
                     | Some (c :: p) => Some (c :: p)
                     | _ => Some s_slash
                     end;
+     v_protocol := if is_connect then q_protocol q else None;
      v_fields := group_fields (q_fields q) |}.
 
 (* a request the property speaks about: a target the sender can name (an authority or a Host field, agreeing when
